@@ -1354,7 +1354,17 @@ class FuncInterp(ModelsMixin, CallModelsMixin):
         if isinstance(e, ast.Lambda):
             tag = f"lam:{self.fi.qual}:{e.lineno}:{e.col_offset}"
             self.A.lambdas[tag] = (e, self.fi)
-            return Val(ty={tag}, kind={"N"})
+            # the closure depends on what it captures: when the lambda is called somewhere else (a helper that receives it as a
+            # parameter) the result depends on the callable parameter, and that dependence is substituted by these at the call site
+            bound = {a.arg for a in e.args.args + e.args.kwonlyargs + e.args.posonlyargs}
+            d, m = set(), set()
+            for x in ast.walk(e.body):
+                if isinstance(x, ast.Name) and isinstance(x.ctx, ast.Load) and x.id not in bound and x.id in st.env:
+                    cv = st.env[x.id]
+                    if cv is not None:
+                        d |= cv.all_dep()
+                        m |= cv.all_mdep()
+            return Val(ty={tag}, kind={"N"}, dep=d, mdep=m)
         if isinstance(e, ast.JoinedStr):
             d = set()
             for x in e.values:
@@ -1689,6 +1699,12 @@ class FuncInterp(ModelsMixin, CallModelsMixin):
             elif t.startswith("lam:"):
                 lam, lfi = self.A.lambdas[t]
                 s2 = State(dict(st.env), st.heap, dict(st.pc))
+                if lfi.qual != self.fi.qual:
+                    # called outside its defining function: its free variables are not the locals of this function
+                    lbound = {a.arg for a in lam.args.args + lam.args.kwonlyargs + lam.args.posonlyargs}
+                    for x in ast.walk(lam.body):
+                        if isinstance(x, ast.Name) and x.id not in lbound:
+                            s2.env.pop(x.id, None)
                 for p, a in zip([x.arg for x in lam.args.args], pos):
                     s2.env[p] = a
                 res = join(res, self.ev(lam.body, s2))
